@@ -287,6 +287,31 @@ def r5_ws_oversize_arm(ctx):
             cont = any(rb_ in reach or rb_ in bt.reach_from(s.bb) for rb_ in recv_bbs)
             R.check(cont, "C07.R5", "background_task:continues", "after the rejection the receive loop continues", "after the rejection the connection loop cannot receive again", where(s))
 
+    # *every* oversized message is answered: from the entry of the MessageTooLarge arm, each path back to the receive (or
+    # out of the loop) passes through the send - not only the first such message of a connection, not only when a log
+    # level is enabled
+    import json as _json
+    recv_bbs = {r.bb for r in bt.calls_to(r"^jsonrpsee_server::transport::ws::try_recv$")}
+    sends = {s.bb for c in rej for s in bt.calls_to(r"MethodSink::send_error$") if len(s.args) > 2 and arg_is_local(bt, s.args[2], c.dest["l"])}
+    uses = {bi for bi, blk in enumerate(bt.blocks) if bi in bt.reachable and not blk.get("cleanup") and '"d": "MessageTooLarge"' in _json.dumps(blk)}
+    if not uses:
+        uses = set(sends)  # the arm binds none of the variant's fields: fall back to the arm around the send
+    entries = set()
+    for bi, blk in enumerate(bt.blocks):
+        t = blk["term"]
+        if bi in bt.reachable and t and t["t"] == "switch":
+            for tb in {x for _, x in t["arms"]} | {t["otherwise"]}:
+                if uses and all(bt.dominates(tb, u) for u in uses) and not any(bt.dominates(tb, r_) for r_ in recv_bbs):
+                    entries.add(tb)
+    # the innermost arm target that still covers every use of the variant's fields: the one all the others dominate
+    tops = [e for e in entries if all(bt.dominates(o, e) for o in entries)]
+    if sends and recv_bbs:
+        R.check(bool(tops), "C07.R5", "background_task:oversize-arm", "the MessageTooLarge arm of the receive loop is identified", "ws::background_task has no arm that handles soketto's MessageTooLarge", "%s:%d" % (bt.file, bt.lo))
+        for e in tops:
+            escape = (bt.reach_from(e, avoid=sends) | {e}) - sends
+            esc_ = [x for x in escape if x in recv_bbs or x in bt.exits]
+            R.check(e in sends or not esc_, "C07.R5", "background_task:every-oversize-answered", "every path through the MessageTooLarge arm sends the -32007 rejection", "the MessageTooLarge arm of ws::background_task can go back to receiving (or leave) without sending the -32007 rejection: some oversized messages are dropped unanswered", "%s:%d" % (bt.file, block_line(bt, e)))
+
     # the rejection itself is not subject to the *response* limit: MethodSink::send_error serialises the error object
     # directly; if it went through the bounded response builder a small max_response_body_size would turn the -32007
     # into -32008, i.e. the answer to an oversized request would depend on the other limit
